@@ -155,6 +155,9 @@ void UtilContext::disasm(uint32_t start, uint32_t end)
       }
     }
 
+    // The last page ends at the top of the address space.
+    if (n + data_size < n) { break; }
+
     n += data_size;
   }
 
